@@ -24,13 +24,14 @@ def C09_GoodEvent (P : Prim) : Event → Prop
   | .call c => C09_Allowed P c
   | .getattr _ a => hasPrefix "__" a = false
   | .modattr _ part => hasPrefix "__" part = false
-  | .fallback _ => True
+  | .fallback id => hasPrefix "__" id = false
 
-/-- Inst: the attribute branch refuses exactly the prefix `__`, and no component of a whitelisted constructor path
-    is a double-underscore name. -/
+/-- Inst: the attribute branch refuses exactly the prefix `__`, no component of a whitelisted constructor path
+    is a double-underscore name, and the Name branch refuses a `__` name before the whitelist-module fallback. -/
 theorem C09_tables :
     Gen.attrRefusedPrefix = "__" ∧ (∀ w ∈ Gen.WHITELIST, ∀ part ∈ splitDot w, hasPrefix "__" part = false) ∧
-    flagsOk = true ∧ Gen.evalNodeKinds.contains "Call" = true ∧ Gen.evalNodeKinds.contains "Attribute" = true := by
+    flagsOk = true ∧ Gen.evalNodeKinds.contains "Call" = true ∧ Gen.evalNodeKinds.contains "Attribute" = true ∧
+    Gen.nameFallbackRefusesDunder = true ∧ Gen.nameRefusedPrefix = "__" := by
   decide
 
 /-- the trace invariant packaged for the generic preservation lemmas -/
@@ -50,7 +51,11 @@ def C09_traceInvariant (P : Prim) : Invariant P where
     have h := C09_tables.1
     rw [h] at ha
     exact ha
-  fallback_ok := fun _ => trivial
+  fallback_ok := fun id h => by
+    have h1 := C09_tables.2.2.2.2.2.1
+    have h2 := C09_tables.2.2.2.2.2.2
+    have : hasPrefix "__" id = false := by simpa [nameRefused, h1, h2] using h
+    exact this
   modattr_ok := fun w hw part hp _ => C09_tables.2.1 w (by simpa using hw) part hp
 
 /-- Safety invariant over the whole effect trace, by induction on the evaluation: whatever the expression and
@@ -70,17 +75,19 @@ theorem C09_match_calls_allowed (P : Prim) (fuel : Nat) (rec : PVal) (e : Expr) 
   · exact C09_calls_allowed P fuel e _ (by simp) _ hc
   · simp at hc
 
-/-- No double-underscore attribute is ever read: not by an `Attribute` node and not while resolving a constructor. -/
+/-- No double-underscore attribute is ever read: not by an `Attribute` node, not while resolving a constructor, and
+    not by a Name that falls back to the whitelist module object (`getattr(dynamic_fieldtype, id)`). -/
 theorem C09_no_dunder (P : Prim) (fuel : Nat) (rec : PVal) (e : Expr) :
     (∀ obj a, Event.getattr obj a ∈ (interpMatch P fuel rec e).1.trace → hasPrefix "__" a = false) ∧
-    (∀ obj a, Event.modattr obj a ∈ (interpMatch P fuel rec e).1.trace → hasPrefix "__" a = false) := by
+    (∀ obj a, Event.modattr obj a ∈ (interpMatch P fuel rec e).1.trace → hasPrefix "__" a = false) ∧
+    (∀ id, Event.fallback id ∈ (interpMatch P fuel rec e).1.trace → hasPrefix "__" id = false) := by
   have key : ∀ ev ∈ (interpMatch P fuel rec e).1.trace, C09_GoodEvent P ev := by
     intro ev hev
     unfold interpMatch at hev
     split at hev
     · exact C09_calls_allowed P fuel e _ (by simp) _ hev
     · simp at hev
-  exact ⟨fun obj a h => key _ h, fun obj a h => key _ h⟩
+  exact ⟨fun obj a h => key _ h, fun obj a h => key _ h, fun id h => key _ h⟩
 
 /-- A double-underscore attribute access is refused before its object expression is evaluated: the state is
     untouched (no event at all), for every sub-expression `v`. -/
@@ -88,7 +95,7 @@ theorem C09_dunder_refused_first (P : Prim) (fuel : Nat) (v : Expr) (a : String)
     (ha : hasPrefix "__" a = true) :
     interp P (fuel + 1) (.attr v a) st = (st, .error .invalidOp) := by
   have h1 := C09_tables.1
-  have h5 : "Attribute" ∈ Gen.evalNodeKinds := by simpa using C09_tables.2.2.2.2
+  have h5 : "Attribute" ∈ Gen.evalNodeKinds := by simpa using C09_tables.2.2.2.2.1
   simp [interp, evalStep, Expr.kind, h1, h5, ha, M.throw]
 
 /-- The call target as the `Call` branch sees it: the dotted path when the target is a Name-rooted attribute chain
@@ -135,15 +142,27 @@ theorem C09_acceptance_static (P : Prim) (fuel : Nat) (func : Expr) (args : List
     (interp P (fuel + 1) (.call func args kwargs) st).2 = (interp P (fuel + 1) (.call func args kwargs) st').2 := by
   rw [C09_refusal_first P fuel func args kwargs st h, C09_refusal_first P fuel func args kwargs st' h]
 
-/-- Known finding (low severity): the guarantee above is about `Attribute` nodes and constructor resolution. A bare
-    *Name* that is not in the namespace — whatever its spelling, `__class__` included — is looked up on the
-    whitelist module object (`getattr(dynamic_fieldtype, id)`): the model logs a `fallback` event and returns what
-    that lookup returns. Nothing reached this way can be called (`C09_calls_allowed`), but it is not refused. -/
-theorem C09_name_fallback_reads_any_name (P : Prim) (fuel : Nat) (id : String) (st : St)
-    (h : inData st id = false) :
+/-- A bare double-underscore *Name* that is not bound in the namespace (`__class__`, `__dict__`, `__import__`, …)
+    is refused before the whitelist-module fallback: `InvalidOperation`, state untouched, no `getattr` on
+    `dynamic_fieldtype` (finding C09-dunder-name-fallback, fixed by 96248cf: the pinned tree evaluated `__class__`
+    to the module's class). -/
+theorem C09_dunder_name_refused_first (P : Prim) (fuel : Nat) (id : String) (st : St)
+    (hd : hasPrefix "__" id = true) (h : inData st id = false) :
+    interp P (fuel + 1) (.name id) st = (st, .error .invalidOp) := by
+  have hk : "Name" ∈ Gen.evalNodeKinds := by decide
+  have h1 := C09_tables.2.2.2.2.2.1
+  have h2 := C09_tables.2.2.2.2.2.2
+  simp [interp, evalStep, Expr.kind, hk, h, nameRefused, h1, h2, hd]
+
+/-- Every other unbound Name reaches the fallback with exactly one `fallback` event and the lookup's own result
+    (an unknown name is the lookup's AttributeError); nothing reached this way can be called
+    (`C09_calls_allowed`). -/
+theorem C09_name_fallback (P : Prim) (fuel : Nat) (id : String) (st : St)
+    (hd : hasPrefix "__" id = false) (h : inData st id = false) :
     interp P (fuel + 1) (.name id) st = ({ st with trace := st.trace ++ [.fallback id] }, P.dynft id) := by
   have hk : "Name" ∈ Gen.evalNodeKinds := by decide
-  simp [interp, evalStep, Expr.kind, hk, h, M.bind, M.log, M.lift]
+  have h2 := C09_tables.2.2.2.2.2.2
+  simp [interp, evalStep, Expr.kind, hk, h, nameRefused, h2, hd, M.bind, M.log, M.lift]
 
 /-- the record invariant packaged for the generic preservation lemmas -/
 def C09_recordInvariant (P : Prim) (r0 : PVal) : Invariant P where
@@ -154,7 +173,7 @@ def C09_recordInvariant (P : Prim) (r0 : PVal) : Invariant P where
   call_builtin := fun _ _ => trivial
   call_ctor := fun _ _ _ _ => trivial
   getattr_ok := fun _ _ _ => trivial
-  fallback_ok := fun _ => trivial
+  fallback_ok := fun _ _ => trivial
   modattr_ok := fun _ _ _ _ _ => trivial
 
 /-- Evaluation never modifies the record: the record component of the state after evaluation is the one before
